@@ -100,10 +100,11 @@ impl BuildOuts {
     /// this function removes duplicates from the output list.
     pub fn remove_duplicates(&mut self) {
         let mut ids = Vec::new();
+        let explicit = self.explicit;
         for (i, &id) in self.ids.iter().enumerate() {
             if self.ids[0..i].iter().any(|&prev| prev == id) {
                 // Skip over duplicate.
-                if i < self.explicit {
+                if i < explicit {
                     self.explicit -= 1;
                 }
                 continue;
